@@ -36,14 +36,23 @@ impl<'a> WireFormat<'a> for NSEC<'a> {
         let mut type_bit_maps = Vec::new();
 
         while data.len() > *position {
+            if *position + 2 > data.len() {
+                return Err(crate::SimpleDnsError::InsufficientData);
+            }
+
             let window_block = data[*position];
             *position += 1;
-            if type_bit_maps.last().is_some_and(|f: &TypeBitMap<'_>| f.window_block - 1 != window_block) {
+            // window blocks must be in increasing order (RFC 4034 section 4.1.2)
+            if type_bit_maps.last().is_some_and(|f: &TypeBitMap<'_>| f.window_block >= window_block) {
                 return Err(crate::SimpleDnsError::AttemptedInvalidOperation);
             }
 
             let bitmap_length = data[*position];
             *position += 1;
+
+            if *position + bitmap_length as usize > data.len() {
+                return Err(crate::SimpleDnsError::InsufficientData);
+            }
 
             let bitmap = &data[*position..*position + bitmap_length as usize];
             *position += bitmap_length as usize;
